@@ -127,6 +127,9 @@ func (eng *Engine) hookDelete(fc *FnCtx, st *State, call *ast.CallExpr, m, k Val
 	}
 	dk, ds, _, _ := fc.mapKeys(mt)
 	present := Val{sel(sel(fc.comp(st, dk, ds), m.T), k.T), types.Typ[types.Bool]}
+	if len(r.ct.DeletePre[se.Sel.Name]) > 0 {
+		fc.hit("deletepre " + se.Sel.Name)
+	}
 	for i, cl := range r.ct.DeletePre[se.Sel.Name] {
 		env := &SpecEnv{fc: r, st: st, old: r.entry, scope: map[string]Val{"$key": k, "$map": m, "$present": present}, oldScope: r.paramsEntry, pkg: r.ctPkg(), useVars: true, outermost: true}
 		g := r.safeSpec(env, cl.E, cl.Text)
@@ -484,7 +487,55 @@ func (eng *Engine) verifyFunction(p *Pkg, key string, ct *Contract) (res *FuncRe
 	}
 	res.Paths = fc.npaths
 	res.ReqSat = append(res.ReqSat, fc.canaries...)
+	if stale := fc.staleClauses(p, key); len(stale) > 0 && res.Unsupported == "" {
+		res.Unsupported = "contract is stale: the body has no site left for " + strings.Join(stale, ", ") + " (the clause was written for a different body)"
+		fc.obls, res.ReqSat = nil, nil
+	}
 	return res
+}
+
+// staleClauses: emit-clauses and caller-scoped function-value externs of the contract that met no call / send / store /
+// write / delete site while the body was executed. Such a contract describes a body that no longer exists (a renamed
+// loop variable holding the function value, a call that has moved into another function): nothing can be concluded
+// from the obligations it still generates, so the function is reported as not verified instead.
+func (fc *FnCtx) staleClauses(p *Pkg, key string) []string {
+	ct := fc.ct
+	if ct == nil {
+		return nil
+	}
+	var out []string
+	chk := func(kind string, m map[string][]Clause) {
+		var ks []string
+		for k := range m {
+			ks = append(ks, k)
+		}
+		sort.Strings(ks)
+		for _, k := range ks {
+			if len(m[k]) > 0 && !fc.clauseHit[kind+" "+k] && !ct.OptionalSites[kind+" "+k] {
+				out = append(out, kind+" "+k)
+			}
+		}
+	}
+	chk("callpre", ct.CallPre)
+	chk("sendpre", ct.SendPre)
+	chk("storepre", ct.StorePre)
+	chk("writepre", ct.WritePre)
+	chk("deletepre", ct.DeletePre)
+	if p.cf != nil {
+		var ks []string
+		for k := range p.cf.Contracts {
+			if strings.HasPrefix(k, "$") && strings.HasSuffix(k, "@"+key) {
+				ks = append(ks, k)
+			}
+		}
+		sort.Strings(ks)
+		for _, k := range ks {
+			if !fc.clauseHit["extern "+k[:strings.Index(k, "@")]] {
+				out = append(out, "extern "+k)
+			}
+		}
+	}
+	return out
 }
 
 func (fc *FnCtx) addAxioms() {
